@@ -64,7 +64,7 @@ const HOSTILE_VALUES: &[&str] = &["null", "[]", "{}", "true", "0", "-1", "999999
 fn mutate_text(rng: &mut Rng, doc: &str) -> (String, String) {
     let lines: Vec<&str> = doc.lines().collect();
     let pick_line = |rng: &mut Rng| rng.below(lines.len().max(1));
-    match rng.below(13) {
+    match rng.below(15) {
         0 => { let mut l = lines.clone(); if !l.is_empty() { l.remove(pick_line(rng)); } ("field-deleted".into(), l.join("\n")) }
         1 => { let mut l = lines.clone(); if !l.is_empty() { let i = pick_line(rng); l.insert(i, l[i]); } ("field-duplicated".into(), l.join("\n")) }
         2 => { let mut l = lines.clone(); if l.len() > 1 { let i = rng.below(l.len() - 1); l.swap(i, i + 1); } ("fields-reordered".into(), l.join("\n")) }
@@ -122,6 +122,20 @@ fn mutate_text(rng: &mut Rng, doc: &str) -> (String, String) {
             let comma = if lines[i].trim_end().ends_with(',') { "," } else { "" };
             l[i] = format!("{}\"@id\": {}{}", &lines[i][..lines[i].find("\"@id\"").unwrap()], nv, comma);
             (format!("temp-id/@id/{}", if nv.len() > 10 { "huge" } else { "small" }), l.join("\n"))
+        }
+        12 | 13 => {
+            // a reference (key, set, resource, annotation, data identifier) in the shape of a temporary identifier,
+            // within and beyond the number of items that exist
+            let fields = ["\"key\": ", "\"set\": ", "\"resource\": ", "\"annotation\": ", "\"dataset\": ", "\"@id\": "];
+            let cands: Vec<(usize, &str)> = lines.iter().enumerate().filter_map(|(i, l)| fields.iter().find(|f| l.contains(**f) && !l.trim_end().ends_with('{') && !l.trim_end().ends_with('[')).map(|f| (i, *f))).collect();
+            if cands.is_empty() { return ("unchanged".into(), doc.to_string()); }
+            let (i, f) = *rng.pick(&cands);
+            let letter = match f { "\"key\": " => *rng.pick(&['K', 'K', 'K', 'D']), "\"set\": " | "\"dataset\": " => 'S', "\"resource\": " => 'R', "\"annotation\": " => 'A', _ => *rng.pick(&['D', 'K', 'A', 'R', 'S']) };
+            let n = *rng.pick(&[0usize, 1, 2, 3, 5, 7, 12, 50, 1000, 70000]);
+            let comma = if lines[i].trim_end().ends_with(',') { "," } else { "" };
+            let mut l: Vec<String> = lines.iter().map(|s| s.to_string()).collect();
+            l[i] = format!("{}{}\"!{}{}\"{}", &lines[i][..lines[i].find(f).unwrap()], f, letter, n, comma);
+            (format!("temp-id-reference/{}/{}", f.trim_matches(|c| c == '"' || c == ':' || c == ' '), if n < 4 { "low" } else { "beyond" }), l.join("\n"))
         }
         11 => { let k = 50 + rng.below(5000); (format!("deep-nesting"), format!("{}{}", "[".repeat(k), "]".repeat(k))) }
         _ => { let mut l = lines.clone(); if l.len() > 3 { let a = pick_line(rng); let b = pick_line(rng); let (a, b) = (a.min(b), a.max(b)); l.drain(a..b.min(a + 6)); } ("block-deleted".into(), l.join("\n")) }
